@@ -29,4 +29,6 @@ run T7 notalways || fail=1
 run T8 NONE || fail=1
 run T9 NONE || fail=1
 run T10 NONE || fail=1
+run T11 NONE || fail=1
+run T12 limit || fail=1
 exit $fail
